@@ -691,7 +691,7 @@ func c08SliceBounds(r *an.Run) {
 	n := 0
 	for _, f := range r.P.ModuleFuncs() {
 		rel := strings.TrimPrefix(strings.TrimPrefix(an.FuncPkgPath(f), an.Module), "/")
-		if strings.HasPrefix(rel, "tools") || rel == "internal/astdiff" || rel == "internal/diff" {
+		if strings.HasPrefix(rel, "tools") {
 			continue
 		}
 		for _, b := range f.Blocks {
@@ -2055,4 +2055,73 @@ func c07WrittenFileStartsEmpty(r *an.Run, m *runModel) {
 	}
 	r.Count("file writes in the write arm", n)
 	r.Min("file writes in the write arm", 1)
+}
+
+// ---------------------------------------------------------------------------
+// C10 / C15: every file that was read and parsed is handed to the patches
+
+// everyParsedFileReachesApply: in one iteration of Run's file loop, once the
+// failure edges of loading (read / parse errors) and the --skip-generated arm
+// are removed, every path passes (*patchRunner).Apply. Whether a change
+// applies to a file (package, imports, pattern) is decided by the matcher on
+// the parsed file and by nothing else: a cheaper pre-filter on the raw bytes
+// (seed C10-9: "does the source mention the import?") skips files the guards
+// would admit.
+func everyParsedFileReachesApply(r *an.Run, m *runModel, rule string) {
+	r.Rule(rule)
+	f := m.run
+	hdr := m.loop.Loop.Header
+	var removed []an.CtrlEdge
+	// failure edges of every (…, error) call between the start of the iteration and Apply
+	removed = append(removed, errorFailEdges(f)...)
+	// the skip-generated arm: the true edge of a branch on the generated-code predicate
+	pred := r.P.Func(mainP, "checkGeneratedCode")
+	for _, c := range an.Calls(f) {
+		if pred == nil || an.StaticCallee(c) != pred {
+			continue
+		}
+		if v, ok := c.(*ssa.Call); ok {
+			for _, br := range an.BranchesOn(f, v) {
+				removed = append(removed, an.CtrlEdge{Block: br.If.Block(), Succ: br.EdgeWhen(true)})
+			}
+			// the predicate may be the right operand of `opts.SkipGenerated && pred(f)`: the true edge of the
+			// block that evaluates it
+			if iff, ok := v.Block().Instrs[len(v.Block().Instrs)-1].(*ssa.If); ok {
+				if c2, pos := an.StripNot(iff.Cond); c2 == ssa.Value(v) {
+					succ := 0
+					if !pos {
+						succ = 1
+					}
+					removed = append(removed, an.CtrlEdge{Block: v.Block(), Succ: succ})
+				}
+			}
+		}
+	}
+	var starts []*ssa.BasicBlock
+	for _, s := range hdr.Succs {
+		if m.loop.Loop.Blocks[s] {
+			starts = append(starts, s)
+		}
+	}
+	skip := skipEdges(removed)
+	reach := an.Reach(starts, func(b *ssa.BasicBlock, i int) bool {
+		return b == m.apply.Block() || skip(b, i)
+	})
+	escapes := false
+	for b := range reach {
+		if b == m.apply.Block() {
+			continue
+		}
+		for i, s := range b.Succs {
+			if s == hdr && !skip(b, i) {
+				escapes = true
+			}
+		}
+		if len(b.Succs) == 0 {
+			if _, isRet := b.Instrs[len(b.Instrs)-1].(*ssa.Return); isRet {
+				escapes = true
+			}
+		}
+	}
+	r.Check(!escapes && reach[m.apply.Block()], short(f)+"|every-parsed-file-reaches-apply", m.apply.Pos(), "apart from read / parse failures and the --skip-generated arm, no path of an iteration reaches the next file without handing this one to (*patchRunner).Apply: nothing but the matcher decides whether the changes apply to a file")
 }
